@@ -1,5 +1,5 @@
 #!/usr/bin/env python3
-"""Generate Sucds/Props/C14.lean (the 8-way case split is unrolled)."""
+"""Generate Sucds/Proofs/C14Pop.lean (the 8-way case split is unrolled)."""
 import sys
 byteS = lambda e, i: f"(({e} >>> {8*i}) &&& 0xFF#64)"
 BS = "(ONES_STEP_8 * byteCountsW x)"
